@@ -156,6 +156,24 @@ def string_decls(tier='quick') -> List[Decl]:
                 props.append('C11')
             out.append(mk('str_%s_%s' % (cname, vname), 'string', 'String', sanitizers=sans, validators=vals,
                           aux=sn + vn, derives=derives, props=props))
+    # literal rules one of which implies another (a macro-time "simplification" that drops or merges
+    # one of them keeps the accept set but changes the first-violated variant)
+    L = aux.lit_bound
+    redundant = [
+        ('ne_min3', [Validator('not_empty'), Validator('len_char_min', L(3))]),
+        ('ne_min1', [Validator('not_empty'), Validator('len_char_min', L(1))]),
+        ('min3_ne', [Validator('len_char_min', L(3)), Validator('not_empty')]),
+        ('min0_ne', [Validator('len_char_min', L(0)), Validator('not_empty')]),
+        ('max20_ne_min3', [Validator('len_char_max', L(20)), Validator('not_empty'), Validator('len_char_min', L(3))]),
+        ('min2_max2', [Validator('len_char_min', L(2)), Validator('len_char_max', L(2))]),
+        ('ne_max0', [Validator('not_empty'), Validator('len_char_max', L(0))]),
+    ]
+    for chain in ([], ['trim']) if tier == 'quick' else ([], ['trim'], ['lowercase'], ['trim', 'uppercase']):
+        sans, sn = _string_sans(chain)
+        cname = '_'.join({'trim': 'tr', 'lowercase': 'lo', 'uppercase': 'up', 'with': 'f'}[c] for c in chain) or 'nos'
+        for vname, vals in redundant:
+            out.append(mk('str_%s_%s' % (cname, vname), 'string', 'String', sanitizers=sans, validators=vals, aux=sn,
+                          derives=['Debug', 'TryFrom', 'FromStr', 'AsRef', 'Into'], props=['C01', 'C03', 'C05', 'C07', 'C13', 'C11']))
     # sanitizers without validation, TryFrom instead of From (infallible TryFrom must still sanitize)
     for chain in chains:
         if not chain or (tier == 'quick' and len(chain) == 3):
